@@ -182,9 +182,11 @@ func ReplaySchedule(sc vrt.Scenario, rf *ReplayFile) []vrt.Violation {
 			vrt.MachineryFault("replay diverged: %s", res.Msg)
 		}
 		out := inst.Outcome()
+		v := inst.Check(res)
+		out = inst.Outcome()
 		if i == 0 {
 			first = out
-			vs = inst.Check(res)
+			vs = v
 		} else if out != first {
 			vrt.MachineryFault("replay not deterministic: %q vs %q", first, out)
 		}
@@ -199,9 +201,16 @@ type raceInst struct {
 	scenario string
 }
 
+func (r *raceInst) Trace() string {
+	if t, ok := r.Instance.(vrt.Tracer); ok {
+		return t.Trace()
+	}
+	return r.Instance.Outcome()
+}
+
 var raceLogOff int64
 
-var raceFrameRe = regexp.MustCompile(`(?m)^  (\S+)\(`)
+var raceFrameRe = regexp.MustCompile(`(?m)^  (\S.*)\(\)$`)
 
 func (r *raceInst) Check(res *vrt.Result) []vrt.Violation {
 	vs := r.Instance.Check(res)
@@ -390,7 +399,7 @@ func Main(prop, level string, assumptions []string, run func(c *Check), replay R
 			cmd := exec.Command(self, "-tier", *tier, "-worker", strconv.Itoa(i), "-nworkers", strconv.Itoa(n), "-partial", filepath.Join(tmp, fmt.Sprintf("p%d.json", i)))
 			cmd.Env = append(os.Environ(), "GOMAXPROCS=2", fmt.Sprintf("VERIF_DEADLINE_S=%d", int(limit.Seconds())))
 			if vrt.RaceBuild {
-				cmd.Env = append(cmd.Env, "GORACE=log_path="+filepath.Join(tmp, "race")+" halt_on_error=0 history_size=2")
+				cmd.Env = append(cmd.Env, "GORACE=log_path="+filepath.Join(tmp, "race")+" halt_on_error=0 exitcode=0 history_size=2")
 			}
 			out, err := cmd.CombinedOutput()
 			results[i] = wres{err, out}
@@ -465,6 +474,11 @@ func Main(prop, level string, assumptions []string, run func(c *Check), replay R
 	}
 	sort.Slice(merged.Found, func(i, j int) bool { return merged.Found[i].Sig < merged.Found[j].Sig })
 	os.MkdirAll(*replays, 0o755)
+	if old, _ := filepath.Glob(filepath.Join(*replays, prop+"-*.json")); len(old) > 0 {
+		for _, f := range old {
+			os.Remove(f)
+		}
+	}
 	nviol := 0
 	var knownSeen []string
 	for _, f := range merged.Found {
